@@ -377,6 +377,34 @@ def r0516(model, rep, ck):
     rep.floor('R05.16', 'defaulted joint arguments resolved from the stored vector', n, 4)
 
 
+def r0517(model, rep, ck):
+    """Who may read the backup: `_original_end_effector_home` exists so that restoreOriginalEE can undo a tool change.  A pose query that computes
+    with it (instead of the current home tool pose) answers for the ORIGINAL tool after setArbitraryHome - joint-frame poses and the reported tool
+    pose then disagree until the tool is restored.  Reads inside print / disp calls (state dumps) and comparisons are not computations."""
+    rep.rule('R05.17', 'the backup home tool pose (_original_end_effector_home) is read only to restore it: no other Arm method computes with it')
+    n = 0
+    fld = '_original_end_effector_home'
+    for name, fi in sorted(ck.arm.methods.items()):
+        for a in ast.walk(fi.node):
+            if not (isinstance(a, ast.Attribute) and a.attr == fld and isinstance(a.ctx, ast.Load) and isinstance(a.value, ast.Name) and a.value.id == 'self'):
+                continue
+            n += 1
+            par = fi.module.parents.get(a)
+            inert = False
+            p_ = a
+            while par is not None and not isinstance(par, ast.stmt):
+                if isinstance(par, ast.Call) and src(par.func).split('.')[-1] in ('print', 'disp', 'dispa', 'printTFlist') and p_ is not par.func:
+                    inert = True
+                if isinstance(par, ast.Compare):
+                    inert = True
+                p_, par = par, fi.module.parents.get(par)
+            ok = inert or name == 'restoreOriginalEE'
+            rep.ob('R05.17', fi, '%s reads self.%s' % (name, fld), ok,
+                   '%s computes with the backup of the home tool pose: after setArbitraryHome its result describes the ORIGINAL tool, while FK / getEEPos use the '
+                   'current one - the poses the arm reports no longer agree' % name, line=a.lineno)
+    rep.floor('R05.17', 'reads of the backup home tool pose', n, 1)
+
+
 def r055(model, rep, ck):
     rep.rule('R05.5', 'move(): initialize(new base, copy of the ORIGINAL screws, LOCAL home pose, ...), then FK(stored joints) or IK(previous pose)')
     mv = ck.arm.methods.get('move')
@@ -502,6 +530,7 @@ def check(model, rep):
     r053(model, rep, ck)
     r054(model, rep, ck)
     r0516(model, rep, ck)
+    r0517(model, rep, ck)
     r055(model, rep, ck)
     r056(model, rep, ck)
     r057(model, rep, ck)
